@@ -31,3 +31,7 @@ check('C10', 'exploration',
       'Every sphere/capsule type assignment over 2-3 free bodies plus a plane (aligned and tilted) and a two-geom body, 2^3 parameter sets, (24 cube rotations + generic)^2 link orientations x 5 designed separations x directions: every candidate row of contact.get compared with closed-form signed distance, normal direction, owning links and mean elasticity.',
       'Closed forms for point/segment/plane distances are the reference. Distances 1e-9 (plane), 1e-7 (capsule pairs; mjx regularises closest points with 1e-6 terms), 1e-5 when centre lines touch; normals at 1e-3 where closest points are >= 2 cm apart.',
       'bounded exhaustive enumeration of scenes x pose grid, closed-form oracle', 'DESIGN.md 4/C10')
+check('C14', 'exploration',
+      'Sub-scope of generator models x {clean} u {each of 20 unsupported-feature injections at every eligible element}; injected documents that MuJoCo compiles must raise on load or in every native pipeline init; clean documents must load and agree with the source on counts, link types, parent order, actuator indices, init_q and pose.',
+      'Feature list from the property statement; MuJoCo compile filters illegal documents (discarded and counted).',
+      'bounded exhaustive enumeration of configurations x injection sites', 'DESIGN.md 4/C14')
